@@ -91,10 +91,11 @@ VARIABLES pc, calc, cell, phase, order, file, back, outp, result,
           order0,   \* the writer's order for the perfect supercell
           resid,    \* output of the perfect supercell (fz)
           orbit,    \* sym: orbit number of every atom of the displaced cell
-          calc2     \* conversion: the output interface ("" otherwise)
+          calc2,    \* conversion: the output interface ("" otherwise)
+          zr        \* fz: which file is given as the perfect-supercell reference (see ZeroRef)
 
-vars == <<pc, calc, cell, phase, order, file, back, outp, result, mode, cell0, order0, resid, orbit, calc2>>
-aux == <<mode, cell0, order0, resid, orbit, calc2>>
+vars == <<pc, calc, cell, phase, order, file, back, outp, result, mode, cell0, order0, resid, orbit, calc2, zr>>
+aux == <<mode, cell0, order0, resid, orbit, calc2, zr>>
 
 -----------------------------------------------------------------------------
 (* helpers *)
@@ -143,12 +144,13 @@ Identity(n) == [i \in 1..n |-> i]
 -----------------------------------------------------------------------------
 NoFile == [label |-> <<>>, pos |-> <<>>, mom |-> <<>>]
 NoMode == [dtype |-> 1, fz |-> FALSE, sym |-> FALSE]
+NoRef == [kind |-> "own", p |-> <<>>, e |-> 0]
 
 Init ==
   /\ pc = "choose" /\ calc = "vasp" /\ cell = <<>> /\ phase = "perfect"
   /\ order = <<>> /\ file = NoFile /\ back = <<>> /\ outp = <<>>
   /\ result = [status |-> "none"]
-  /\ mode = NoMode /\ cell0 = <<>> /\ order0 = <<>> /\ resid = <<>> /\ orbit = <<>> /\ calc2 = ""
+  /\ mode = NoMode /\ cell0 = <<>> /\ order0 = <<>> /\ resid = <<>> /\ orbit = <<>> /\ calc2 = "" /\ zr = NoRef
 
 Choose ==
   /\ pc = "choose" /\ "pipeline" \in Tasks
@@ -167,7 +169,7 @@ ChooseConvert ==
        /\ cell' = MakeCell(s, FALSE) /\ cell0' = MakeCell(s, FALSE)
   /\ phase' = "convert-in"
   /\ pc' = "order"
-  /\ UNCHANGED <<order, file, back, outp, result, mode, order0, resid, orbit>>
+  /\ UNCHANGED <<order, file, back, outp, result, mode, order0, resid, orbit, zr>>
 
 Order ==
   /\ pc = "order"
@@ -223,7 +225,7 @@ Displace ==
   /\ cell0' = cell /\ order0' = order
   /\ phase' = "displaced"
   /\ pc' = "order"
-  /\ UNCHANGED <<calc, order, file, back, outp, result, resid, calc2>>
+  /\ UNCHANGED <<calc, order, file, back, outp, result, resid, calc2, zr>>
 
 (* the force on an atom is a function of which atom it is: token = its id;    *)
 (* the residual force (perfect supercell) of dataset atom a: Res(a)           *)
@@ -239,11 +241,44 @@ Collect ==
   /\ outp' = [k \in {k \in 1..Len(back) : Listed(k)} |->
                 [point |-> back[k].id,
                  force |-> Force(back[k].id) + (IF mode.fz THEN Res(order[k]) ELSE 0)]]
-  /\ resid' = IF mode.fz
-                THEN [k \in 1..Len(cell0) |-> [point |-> cell0[order0[k]].id, force |-> Res(order0[k])]]
-                ELSE <<>>
+  /\ pc' = IF mode.fz THEN "zeroref" ELSE "agree"
+  /\ UNCHANGED <<calc, cell, phase, order, file, back, result, aux>>
+
+(* --fz: the FIRST file is the output of the perfect supercell.  It is a file   *)
+(* of its own, not necessarily the run of the supercell file phonopy wrote:     *)
+(*   "own"  - the run of phonopy's supercell file: atoms in the writer's order  *)
+(*   "perm" - a run whose atoms are listed in ANOTHER order p (line k = atom    *)
+(*            p[k]): p fixes k of the n atoms, k = 0 .. n (k = n is "own" for   *)
+(*            an identity order); e.g. grouped by species vs interleaved        *)
+(*   "one"  - the writer's order, but atom e sits at a displaced position (a    *)
+(*            displaced-supercell run passed as the reference)                  *)
+(*   "all"  - every atom at a displaced position                               *)
+(* Each line carries the position (where the output has positions) and the      *)
+(* residual force of the atom that sits there.                                  *)
+Perms(n) == {p \in [1..n -> 1..n] : \A i, j \in 1..n : i # j => p[i] # p[j]}
+Fixed(p) == Cardinality({i \in DOMAIN p : p[i] = i})
+RefVariants(n, own) ==
+  {[kind |-> "own", p |-> own, e |-> 0]}
+  \cup {[kind |-> "perm", p |-> q, e |-> 0] : q \in Perms(n) \ {own}}
+  \cup {[kind |-> "one", p |-> own, e |-> a] : a \in 1..n}
+  \cup {[kind |-> "all", p |-> own, e |-> 0]}
+RefLine(v, c0, k) ==
+  LET a == v.p[k]
+      n == Len(c0)
+  IN [point |-> IF v.kind = "all" \/ (v.kind = "one" /\ a = v.e) THEN 2 * n + a ELSE c0[a].id,
+      force |-> Res(a)]
+ZeroRefWith(v) ==
+  /\ pc = "zeroref"
+  /\ zr' = v
+  /\ resid' = [k \in 1..Len(cell0) |-> RefLine(v, cell0, k)]
   /\ pc' = "agree"
-  /\ UNCHANGED <<calc, cell, phase, order, file, back, result, mode, cell0, order0, orbit, calc2>>
+  /\ UNCHANGED <<calc, cell, phase, order, file, back, outp, result, mode, cell0, order0, orbit, calc2>>
+(* foreign reference files are explored where the output carries positions (the *)
+(* clause of C17), for cells small enough to enumerate all permutations          *)
+ZeroRef ==
+  \E v \in (IF Trait[calc].points /\ Len(cell0) <= 4
+              THEN RefVariants(Len(cell0), order0)
+              ELSE {[kind |-> "own", p |-> order0, e |-> 0]}) : ZeroRefWith(v)
 
 Agree ==
   /\ pc = "agree"
@@ -266,7 +301,7 @@ Agree ==
   /\ pc' = "done"
   /\ UNCHANGED <<calc, cell, phase, order, file, back, outp, aux>>
 
-Next == Choose \/ ChooseConvert \/ Order \/ Write \/ Read \/ Convert \/ Displace \/ Collect \/ Agree
+Next == Choose \/ ChooseConvert \/ Order \/ Write \/ Read \/ Convert \/ Displace \/ Collect \/ ZeroRef \/ Agree
 
 Spec == Init /\ [][Next]_vars
 
@@ -307,6 +342,14 @@ ReqForcesPaired(c, r) ==
   r.status = "built" => /\ Len(r.forces) = Len(c)
                         /\ \A k \in 1..Len(c) : r.forces[k] = Force(c[k].id)
 ReqNotRefusedWhenSameOrder(c, b, r) == IsIdentityOrder(c, b) => r.status = "built"
+(* --fz, output with positions: FORCE_SETS is built only if the reference file   *)
+(* lists, line by line, EVERY atom of the perfect supercell at its own position  *)
+(* (then the residual force of atom k is subtracted from atom k); a reference    *)
+(* that agrees for some atoms only is refused like one that agrees for none      *)
+RefAgreesAll(c0, ref) == Len(ref) = Len(c0) /\ \A k \in 1..Len(c0) : ref[k].point = c0[k].id
+ReqZeroRef(c0, ref, r) == r.status = "built" => RefAgreesAll(c0, ref)
+(* ... and the run of phonopy's own supercell file is never refused for that reason *)
+ReqZeroRefAccepted(c, b, c0, ref, r) == (IsIdentityOrder(c, b) /\ RefAgreesAll(c0, ref)) => r.status = "built"
 (* whatever the output carries: if the file lists the atoms in the dataset's  *)
 (* order, a built FORCE_SETS has the force of atom k at atom k (units, sign   *)
 (* and frame conventions of the output format are undone by the parser)      *)
@@ -315,7 +358,7 @@ ReqForcesPairedSameOrder(c, b, r) == (IsIdentityOrder(c, b) /\ r.status = "built
 -----------------------------------------------------------------------------
 (* Invariants of the step machine *)
 
-TypeOK == pc \in {"choose", "order", "write", "read", "displace", "collect", "agree", "done", "convert"}
+TypeOK == pc \in {"choose", "order", "write", "read", "displace", "collect", "zeroref", "agree", "done", "convert"}
 
 Pipeline == phase \in {"perfect", "displaced"}
 AfterRead == Pipeline /\ pc \in {"displace", "collect", "agree", "done"}
@@ -329,7 +372,12 @@ InvGroupingIsTrait ==
 InvIdempotent == (AfterRead /\ Trait[calc].groups) => GroupPerm(SpeciesOf(back)) = Identity(Len(back))
 PDone == Pipeline /\ pc = "done"
 InvForcesPaired == (PDone /\ Trait[calc].points) => ReqForcesPaired(cell, result)
-InvNotRefused == PDone => ReqNotRefusedWhenSameOrder(cell, back, result)
+InvNotRefused == (PDone /\ zr.kind = "own") => ReqNotRefusedWhenSameOrder(cell, back, result)
+InvZeroRef == (PDone /\ mode.fz /\ Trait[calc].points) =>
+                 /\ ReqZeroRef(cell0, resid, result)
+                 /\ ReqZeroRefAccepted(cell, back, cell0, resid, result)
+(* every class of partial mismatch is reached: permutations fixing k atoms for all possible k *)
+InvFixedRange == (pc = "agree" /\ zr.kind = "perm") => Fixed(zr.p) \in 0..Len(cell0)
 InvForcesPairedSameOrder == PDone => ReqForcesPairedSameOrder(cell, back, result)
 (* WIEN2k's symmetric route pairs by position whatever the order *)
 InvSymPaired == (PDone /\ mode.sym) => (result.status = "built" /\ ReqForcesPaired(cell, result))
@@ -345,5 +393,5 @@ InvMispairedOnlyUnchecked ==
   Mispaired => (Trait[calc].groups /\ ~Trait[calc].points /\ ~IsIdentityOrder(cell, back) /\ calc \notin Unpermutes)
 (* the refusal is exactly the interleaved case *)
 InvRefusedIffReordered ==
-  (PDone /\ Trait[calc].points) => (result.status = "refused" <=> ~IsIdentityOrder(cell, back))
+  (PDone /\ Trait[calc].points /\ zr.kind = "own") => (result.status = "refused" <=> ~IsIdentityOrder(cell, back))
 =============================================================================
